@@ -1,6 +1,7 @@
 (* C15 — readers refuse streams of a different schema or format (binary format). *)
 From Coq Require Import List NArith ZArith.
 From YV Require Import Base.Wire Model.Binary Proofs.ProtocolProofs.
+From YV Require Import Model.CodedCpp Model.CodedPy Model.PyReadProg Model.PyTypedRead Proofs.PyTypedReadProofs.
 Import ListNotations.
 Open Scope N_scope.
 
@@ -27,6 +28,27 @@ Theorem C15_own_stream_accepted : forall schema p ws, steps_ok p ws = true ->
   dec_protocol schema p (enc_protocol schema p ws) = POk (map sread_of ws).
 Proof. exact protocol_roundtrip. Qed.
 Print Assumptions C15_own_stream_accepted.
+
+(* The header check of the generated Python reader as a reader program (BinaryProtocolReader.__init__: read_view(5),
+   read(int32), string read, comparisons - tied to the code by the call traces of C01, constructor included): what it accepts
+   starts with the magic bytes, a version that reads as 1, a length prefix and exactly the reader's own schema *)
+Theorem C15_py_accepted_header : forall expected l r, arun_p (py_read_header expected) l = PVal tt r ->
+  exists verbytes lenbytes,
+    l = magic ++ verbytes ++ lenbytes ++ expected ++ r
+    /\ length verbytes = 4%nat /\ le_dec verbytes = format_version
+    /\ pvdec lenbytes = Some (N.of_nat (length expected), []).
+Proof. exact py_header_accepted. Qed.
+Print Assumptions C15_py_accepted_header.
+
+Theorem C15_py_own_header_accepted : forall schema rest, arun_p (py_read_header schema) (enc_header schema ++ rest) = PVal tt rest.
+Proof. exact py_header_own. Qed.
+
+(* a stream written under another schema is refused by the Python reader through its buffered stream, for every buffer size
+   >= 4, before any value is read *)
+Theorem C15_py_foreign_refused : forall b sa sb rest, (4 <= b)%nat -> sa <> sb ->
+  mrun_p b (py_read_header sb) (pin_init (enc_header sa ++ rest)) = MBad.
+Proof. exact py_header_foreign_buffered. Qed.
+Print Assumptions C15_py_foreign_refused.
 
 (* the constants of the model (varint byte budgets, magic bytes, format version, nesting limit, default
    buffer size >= 10) are those of the current sources (Gen/Tables.v is regenerated from /repo on every run) *)
